@@ -430,7 +430,7 @@ class ExecRunner:
 
 
 def parse_exec_out(out):
-    r = {"verd": {}, "got": {}, "want": {}, "m15": {}, "vdef": {}, "wdef": {}, "text": {}, "norm": {}}
+    r = {"verd": {}, "got": {}, "want": {}, "m15": {}, "vdef": {}, "wdef": {}, "text": {}, "norm": {}, "bound": {}}
     for ln in out.splitlines():
         p = ln.split(" ")
         if p[0] == "S":
@@ -439,6 +439,8 @@ def parse_exec_out(out):
             r["text"][int(p[1])] = p[2]
         elif p[0] == "N":
             r["norm"][int(p[1])] = p[2] == "1"
+        elif p[0] == "B":
+            r["bound"][int(p[1])] = p[2] == "1"
         elif p[0] == "D":
             r["verd"][(int(p[1]), int(p[2]))] = (int(p[3]), int(p[4]))
             r["vdef"][(int(p[1]), int(p[2]))] = int(p[5])
@@ -508,6 +510,9 @@ def judge_exec(ck, xr, run, label):
     nbad = [c for c in run if not r["norm"].get(c["id"])]
     ck.obligation("execution (%s): the script the reader's entry point hands to the planners is norm_script (model/LogqlPlan.v) of the script as written, on the %d executed cases" % (label, len(run)),
                   not nbad, "; ".join(c["query"] for c in nbad[:3]))
+    bbad = [c for c in run if not r["bound"].get(c["id"])]
+    ck.obligation("execution (%s): every WITH reference of the planner model's tree carries the query its alias is bound to in the statement (wrefs_bound: no alias capture in the model), on the %d executed cases" % (label, len(run)),
+                  not bbad, "; ".join(c["query"] for c in bbad[:3]))
     tbad_ids = {c["id"] for c in tbad}
     hist = {"agree": 0, "tie-dependent": 0, "differ": 0, "not-evaluated": 0, "no-reference": 0, "shortcut-window-unaligned": 0, "text-not-rendered": 0}
     differ, noeval, distinct = [], [], set()
@@ -616,6 +621,8 @@ def exec_judged(ck, xr, run, is_replay):
             cls[x] = cls.get(x, 0) + 1
     ck.extra["exec_query_classes"] = cls
     ck.extra["exec_shortcut_cases"] = sum(1 for i in m15 if m15[i])
+    ck.extra["exec_shortcut_judged"] = sum(1 for (i, k) in verd if m15.get(i) and not r["unaligned"](i))
+    ck.extra["exec_definition_checks"] = sum(1 for v in vdef.values() if v == 0)
     judged = hist["agree"] + hist["tie-dependent"] + hist["differ"]
     ck.coverage["evaluations"] += judged
     ck.coverage["distinct_nontrivial"] += len(distinct)
@@ -722,6 +729,10 @@ def run(ck):
     try:
         run_sql(ck)
         run_exec(ck)
+        # line_format templates alone: text/template Parse + LineFormatPlanner.visitNodes against model/LogqlTemplate.v (builder b4-lf)
+        tc = sqltext.run_tpl(ck, n_quick=1500, n_thorough=40000, corpus=os.path.join(CORPUS, "templates.jsonl"))
+        ck.coverage["evaluations"] += len(tc)
+        ck.coverage["distinct_nontrivial"] += len({c["tpl"] for c in tc if c.get("verdict") == "p" and "{{" in c["tpl"]})
     finally:
         t.join()
     ck.obligation("post-processor part ran to completion", not err, "; ".join(err))
